@@ -150,6 +150,15 @@ func cornerEvents(prop string) []string {
 				gw.EvB(fmt.Sprintf("broker PUBLISH(p/1,q1,%d bytes)", n), refmqtt.EncPublish("p/1", 1, false, false, 21, bigPayload(n))),
 				gw.EvB(fmt.Sprintf("broker PUBLISH(w/new,q0,%d bytes)", n), refmqtt.EncPublish("w/new", 0, false, false, 0, bigPayload(n))))
 		}
+		// sizes across the one-octet / three-octet length form boundary (datagram sizes 254..258)
+		for _, n := range []int{247, 248, 249, 250, 251} {
+			a = append(a,
+				gw.EvB(fmt.Sprintf("broker PUBLISH(xy,q0,%d bytes)", n), refmqtt.EncPublish("xy", 0, false, false, 0, bigPayload(n))),
+				gw.EvB(fmt.Sprintf("broker PUBLISH(p/1,q1,%d bytes)", n), refmqtt.EncPublish("p/1", 1, false, false, 21, bigPayload(n))))
+		}
+		for _, n := range []int{247, 248, 249, 250} {
+			a = append(a, gw.EvB(fmt.Sprintf("broker PUBLISH(%d-byte new topic)", n+2), refmqtt.EncPublish("w/"+strings.Repeat("t", n), 0, false, false, 0, []byte("x"))))
+		}
 		a = append(a,
 			gw.EvB("broker PUBLISH(8170-byte new topic)", refmqtt.EncPublish("w/"+strings.Repeat("t", 8170), 0, false, false, 0, []byte("x"))),
 			gw.EvC("REGISTER(7168-byte name)", gw.Register(0, 5, strings.Repeat("n", 7168))),
@@ -233,7 +242,7 @@ func runWellFormed(t *testing.T, prop, test string) {
 	rep := explore.NewReport(prop, "model_checking")
 	gw.BFSCheck(rep, specs, gw.BFSOpts{Test: test}, 240, 1500)
 	if prop == "C23" {
-		rep.Coverage["rule"] = "BFS (depth 3, thorough 4) over connect / subscribe / sleep / wake events plus the corner inputs the property names (broker payloads of 0..70000 bytes on short, predefined and new topics, an 8170-byte new topic name, a 7168-byte REGISTER, CONNECT with keep-alive 0 and with a wrong protocol id, CONNECT while asleep/awake); every datagram the gateway sends is decoded by the reference decoder: decodable, type valid gateway->client, length field = size, canonical length form, size <= 8192. (The client-library direction is checked by the client harness part.)"
+		rep.Coverage["rule"] = "BFS (depth 3, thorough 4) over connect / subscribe / sleep / wake events plus the corner inputs the property names (broker payloads of 0..70000 bytes on short, predefined and new topics, payloads and new topic names that put the datagram size at 254..258 bytes, an 8170-byte new topic name, a 7168-byte REGISTER, CONNECT with keep-alive 0 and with a wrong protocol id, CONNECT while asleep/awake); every datagram the gateway sends is decoded by the reference decoder: decodable, type valid gateway->client, length field = size, canonical length form, size <= 8192. (The client-library direction is checked by the client harness part.)"
 	} else {
 		rep.Coverage["rule"] = "BFS (depth 3, thorough 4) over connect / subscribe / sleep / wake events plus malformed-but-decodable client input (reserved topic id type, QoS 1/2 with msg id 0, short topics containing wildcards, SUBSCRIBE QoS 3 / msg id 0 / malformed filters, REGISTER of wildcard names and publishing to them, will QoS 3, wildcard will topic, empty WILLTOPIC with the Will flag, empty client id without clean session, PUBREL msg id 0); every packet written to the broker is parsed and validated by an independent MQTT 3.1.1 validator"
 	}
